@@ -2,6 +2,8 @@ import IrVerif.Lemmas.SerdeFields
 import IrVerif.Lemmas.SerdeWideSub
 import IrVerif.Lemmas.SerdeMergeSub
 import IrVerif.Lemmas.SerdeOutdupSub
+import IrVerif.Lemmas.SerdeScalar
+import IrVerif.Lemmas.SerdeIR9
 /-!
 C02 — ONNX proto -> IR -> proto is lossless (DESIGN.md section 5, C02).
 
@@ -56,6 +58,15 @@ what `_deserialize_graph` does to the one `Value` they all address.  `C02_outdup
 `C02_function_alone_outdup` / `C02_node_alone_wide` / `C02_node_wide` / `C02_attr_wide`:
 `WFproto (canonD p) -> serialize (deserialize p) = norm (canonD p)`; `C02_outdup_subsumes`: on the
 domains of stage E / B `canonD` is `canon` / the identity.
+E8 (IR < 10, a value of the main graph named like the experimental entry of a function value, D320):
+`C02_model_ir9` / `C02_model_ir9_wide` / `C02_model_ir9_outdup` drop the hypothesis "no such name" of
+`wfModel` (`wfModel9`, `normModel9`: reserved names); `C02_ir9_subsumes`.
+
+Stage G (second deepening round; model `IrVerif/Model/SerdeScalar.lean`): dimensions and INT / FLOAT / STRING
+attributes as typed fields - int64 ranges with the checked serializers raising exactly outside them, float32
+bit patterns with the widening / narrowing conversions, bytes with CPython's strict UTF-8 codec
+(`C02_dim_fields`, `C02_shape_fields`, `C02_attr_scalar_fields`, `C02_float32_*`, `C02_utf8_roundtrip`);
+supersedes `dim_by_construction` and `attr_scalar_by_construction`.
 -/
 namespace IrVerif.Serde
 open IrVerif.Proto
@@ -843,5 +854,206 @@ example : wfNodeAloneD exampleNodeWide = true ∧ wfNodeAlone exampleNodeWide = 
 example : wfAttrD [["a", "y"]] (.graph "then_branch" "" (.mk "g" "" [.mk ["a"] ["t"] "" "Relu" "" "" "" [] [] []] [] []
       [⟨"t", .tensor (some 1) none "", "one", [⟨"k", "1"⟩]⟩, ⟨"t", .tensor (some 1) none "", "two", [⟨"j", "2"⟩]⟩]
       [] [] [])) = true := by decide
+
+/-! ## stage F': IR version < 10 with a graph value named like an experimental entry (E8, D320) -/
+
+/-- a whole model WITHOUT the hypothesis "no value of the main graph is named like `domain::name/value`"
+(`wfModel9` = `wfModel` minus that conjunct): below IR version 10 the entry of a function value whose formatted
+name is the name of a value of the main graph (an input / output of a top-level node, an initializer:
+`reservedP`) is not written — it would be attached to the graph value too when the model is loaded
+(serde.py:1593-1615, /repo commit f0d2984) — everything else as in `C02_model` (`normModel9`) -/
+theorem C02_model_ir9 (m : ModelP) (h : wfModel9 m = true) :
+    ∃ x, desModel m = .ok x ∧ serModel x = .ok (normModel9 m) :=
+  model_rt9 m h
+
+/-- the same in front of the fold (E8 together with E2 E5 E6 E7) -/
+theorem C02_model_ir9_wide (m : ModelP) (h : wfModel9W m = true) :
+    ∃ x, desModel m = .ok x ∧ serModel x = .ok (normModel9W m) :=
+  model_rt9W m h
+
+/-- the same in front of `canonD = merge ∘ outdup ∘ fold` (E8 together with E2-E7): below IR version 10 no graph
+input and no declared graph output may have a name of the experimental form (`wfModel9D`); the values inside
+the graph may -/
+theorem C02_model_ir9_outdup (m : ModelP) (h : wfModel9D m = true) :
+    ∃ x, desModel m = .ok x ∧ serModel x = .ok (normModel9D m) :=
+  model_rt9D m h
+
+/-- these contain `C02_model` / `C02_model_wide` / `C02_model_outdup`: where no value of the main graph has a
+name of the experimental form nothing is reserved -/
+theorem C02_ir9_subsumes (m : ModelP) :
+    (wfModel m = true → wfModel9 m = true ∧ normModel9 m = normModel m) ∧
+    (wfModelW m = true → wfModel9W m = true ∧ normModel9W m = normModelW m) ∧
+    (wfModelD m = true → wfModel9D m = true ∧ normModel9D m = normModelD m) := by
+  refine ⟨wfModel9_of_wf m, fun h => ?_, wfModel9D_of_wfD m⟩
+  obtain ⟨h1, h2⟩ := wfModel9_of_wf (foldModel m) h
+  refine ⟨?_, h2⟩
+  simp only [wfModel9W, h1, Bool.true_and, Bool.or_eq_true, decide_eq_true_eq]
+  simpa [foldModel, foldGraph_inputs, inputsPlain] using inputsPlain_of_wf _ h
+
+/-- non-vacuity: `exampleModelIR9` with a node of the main graph whose output is named `pkg::fn/a`, the
+experimental name of the input `a` of `pkg::fn`; the `value_info` entry of that name describes the graph value
+and is written once -/
+def exampleModelIR9E8 : ModelP :=
+  { exampleModelIR9 with
+    graph := match exampleModelIR9.graph with
+      | .mk name doc nodes inits inputs outputs vis quant md =>
+        .mk name doc (nodes ++ [.mk ["x"] ["pkg::fn/a"] "e8" "Custom" "" "" "" [] [] []]) inits inputs outputs
+          vis quant md }
+
+example : wfModel9 exampleModelIR9E8 = true ∧ wfModel exampleModelIR9E8 = false := by decide
+
+example : (normModel9 exampleModelIR9E8).graph.valueInfo.map (·.name)
+    = ["c", "pkg::fn/a", "pkg::fn//blk/out"] := by decide
+
+/-- non-vacuity of `wfModel9D`: the same with the graph output `y` listed twice with differing entries (E4) -/
+def exampleModelIR9E8D : ModelP :=
+  { exampleModelIR9E8 with
+    graph := match exampleModelIR9E8.graph with
+      | .mk name doc nodes inits inputs outputs vis quant md =>
+        .mk name doc nodes inits inputs (outputs ++ [⟨"y", .tensor (some 7) none "", "again", [⟨"k", "1"⟩]⟩])
+          vis quant md }
+
+example : wfModel9D exampleModelIR9E8D = true ∧ wfModel9W exampleModelIR9E8D = false
+    ∧ wfModelD exampleModelIR9E8D = false := by decide
+
+/-! ## stage G: the typed scalar level (`IrVerif/Model/SerdeScalar.lean`, `IrVerif/Lemmas/SerdeScalar.lean`)
+
+What used to hold "by construction of the rendering" (`dim_by_construction`, `attr_scalar_by_construction`: int64
+payloads as unbounded JSON numbers, float32 <-> double conversion and UTF-8 decoding inside the trusted renderer
+of harness/c02.py) as typed theorems: `dim_value` / `i` are int64 and the checked serializers raise exactly outside
+that range, `f` is a float32 bit pattern and the IR holds the double it widens to, `s` is bytes and the IR holds the
+decoded code points.  Compared with the real code on every run by `harness/c02_scalar.py` (ops `serdescalar.*`). -/
+
+/-- a dimension, field by field.  (1) proto -> IR -> proto, for every Dimension protobuf can hold (`wfDimF`:
+`dim_value` in int64): the checked serializer succeeds; the selected member of the `value` oneof and its payload
+(`dim_value`, `dim_param` - also the empty string -, or neither) are equal; the denotation is the same string and
+keeps its presence bit unless it is empty; this agrees with the unchecked `serDim (desDim _)` of `Model/Serde.lean`
+(supersedes `dim_by_construction`).  (2) IR -> proto for IR dimensions that did not come from a proto: `.ok` exactly
+when an `int` dimension is in the int64 range, `ValueError` (root cause; re-raised as SerdeError) otherwise - it
+never wraps; and what is written deserializes to the same dimension. -/
+theorem C02_dim_fields :
+    (∀ d : DimF, wfDimF d = true →
+      ∃ r, serDimC (desDimF d) = .ok r ∧ r.val = d.val ∧ r.den = normDen d.den ∧
+        r.den.getD "" = d.den.getD "" ∧ (d.den ≠ some "" → r.den = d.den) ∧
+        r.toP = serDim (desDim d.toP) ∧ r.toP = d.toP) ∧
+    (∀ d : IRDimF, ((∃ r, serDimC d = .ok r) ↔ irShapeInRange [d] = true) ∧
+      (irShapeInRange [d] = false → serDimC d = .error "ValueError") ∧
+      (∀ r, serDimC d = .ok r → desDimF r = ⟨d.dim, normDen d.den⟩ ∧ wfDimF r = true)) :=
+  ⟨dim_fields, fun d => ⟨serDimC_ok_iff d, serDimC_error d, desDimF_serDimC d⟩⟩
+
+example : wfDimF ⟨.value (-9223372036854775808), some ""⟩ = true ∧ wfDimF ⟨.param "", none⟩ = true ∧
+    wfDimF ⟨.value 9223372036854775808, none⟩ = false := by decide
+example : irShapeInRange [⟨.int 9223372036854775808, some "a"⟩] = false ∧
+    irShapeInRange [⟨.int 9223372036854775807, none⟩, ⟨.sym none, none⟩] = true := by decide
+example : serDimC ⟨.int (-9223372036854775809), none⟩ = .error "ValueError" ∧
+    serDimC ⟨.sym (some ""), some ""⟩ = .ok ⟨.param "", none⟩ := ⟨rfl, rfl⟩
+
+/-- a whole shape (any rank, denotations per dimension): the same two statements for the loop of
+`serialize_shape_into` - the first dimension outside int64 aborts with ValueError -/
+theorem C02_shape_fields :
+    (∀ s : ShapeF, s.all wfDimF = true →
+      serShapeC (desShapeF s) = .ok (s.map normDimF) ∧
+      (s.map normDimF).map DimF.toP = serShape (desShape (s.map DimF.toP))) ∧
+    (∀ s : IRShapeF, ((∃ r, serShapeC s = .ok r) ↔ irShapeInRange s = true) ∧
+      (irShapeInRange s = false → serShapeC s = .error "ValueError")) :=
+  ⟨fun s h => ⟨serShapeC_desShapeF s h, toP_shape s⟩, fun s => ⟨serShapeC_ok_iff s, serShapeC_error s⟩⟩
+
+example : [(⟨.param "N", some "DATA_BATCH"⟩ : DimF), ⟨.unset, none⟩, ⟨.value 3, some ""⟩].all wfDimF = true := by decide
+example : irShapeInRange [⟨.int 1, none⟩, ⟨.int 9223372036854775808, none⟩, ⟨.int 3, none⟩] = false := by decide
+
+/-- INT / FLOAT / STRING attributes, every field (supersedes `attr_scalar_by_construction`).
+(1) the whole attribute, proto -> IR -> proto: name equal, `doc_string` equal (absent when empty), the payload
+field present afterwards with `i` equal / `f` the same BITS except that a signalling NaN comes back quiet (`quiet32`)
+/ `s` the same bytes whether they are UTF-8 or not.  (2) INT: every int64 comes back; a Python int serializes iff it
+is in `[-2^63, 2^63)`, ValueError otherwise (no wrapping).  (3) FLOAT: for every float32 pattern the bits written
+back are `quiet32 b`, i.e. `b` itself for zeros, subnormals, normals, infinities and quiet NaNs.  (4) STRING: all
+byte strings come back; a `str` serializes iff it has no lone surrogate, UnicodeEncodeError otherwise.
+(5) the rendering `r_attr` of the same attribute round-trips in the unchecked model (`rtAttr`). -/
+theorem C02_attr_scalar_fields :
+    (∀ a : AttrScalarP, wfScalarP a.val = true → serAttrScalarC (desAttrScalar a) = .ok (normAttrScalarP a)) ∧
+    (∀ i : Int, inInt64 i = true → serAttrIntC (desAttrInt (some i)) = .ok i) ∧
+    (∀ n : Int, ((∃ r, serAttrIntC n = .ok r) ↔ inInt64 n = true) ∧
+      (inInt64 n = false → serAttrIntC n = .error "ValueError") ∧
+      (inInt64 n = true ↔ -(2 : Int) ^ 63 ≤ n ∧ n < (2 : Int) ^ 63)) ∧
+    (∀ b : Nat, b < 2 ^ 32 → serAttrFloatC (desAttrFloat (some b)) = .ok (quiet32 b) ∧
+      ((isNaN32 b = false ∨ 2 ^ 22 ≤ f32Man b) → serAttrFloatC (desAttrFloat (some b)) = .ok b)) ∧
+    (∀ bs : List Nat, serAttrStringC (desAttrString (some bs)) = .ok bs) ∧
+    (∀ cps : List Nat, ((∃ bs, serAttrStringC (.str cps) = .ok bs) ↔ cps.all (fun c => !isSurrogate c) = true) ∧
+      (cps.all (fun c => !isSurrogate c) = false → serAttrStringC (.str cps) = .error "UnicodeEncodeError")) ∧
+    (∀ (scopes : Scopes) (a : AttrScalarP), rtAttr scopes a.toAttrP = .ok a.toAttrP) :=
+  ⟨serAttrScalarC_desAttrScalar,
+   fun i h => by simp [serAttrIntC, desAttrInt, h],
+   fun n => ⟨serAttrIntC_ok_iff n, serAttrIntC_error n, inInt64_iff n⟩,
+   fun b hb => ⟨by simp [serAttrFloatC, desAttrFloat, f64ToF32_f32ToF64 b hb],
+                fun h => by simp [serAttrFloatC, desAttrFloat, f64ToF32_f32ToF64_exact b hb h]⟩,
+   fun bs => serAttrStringC_desAttrString (some bs),
+   fun cps => ⟨utf8Enc_ok_iff cps, utf8Enc_error cps⟩,
+   toAttrP_roundtrip⟩
+
+example : wfScalarP (.int (some (-9223372036854775808))) = true ∧ wfScalarP (.float (some 0x7F800001)) = true ∧
+    wfScalarP (.string (some [0xFF, 0xC3, 0xA9])) = true ∧ wfScalarP (.int none) = true ∧
+    wfScalarP (.int (some 9223372036854775808)) = false := by decide
+example : inInt64 9223372036854775807 = true ∧ inInt64 9223372036854775808 = false ∧
+    inInt64 (-9223372036854775809) = false := by decide
+example : isNaN32 0x7F800001 = true ∧ f32Man 0x7F800001 < 2 ^ 22 ∧ quiet32 0x7F800001 = 0x7FC00001 ∧
+    isNaN32 0xFF800000 = false ∧ (isNaN32 0x7FC00001 = true ∧ 2 ^ 22 ≤ f32Man 0x7FC00001) := by decide
+example : [0x61, 0xDC80].all (fun c => !isSurrogate c) = false ∧
+    [0x61, 0x1F600].all (fun c => !isSurrogate c) = true := by decide
+example : normAttrScalarP ⟨"a", some "", .float (some 0x7F800001)⟩ = ⟨"a", none, .float (some 0x7FC00001)⟩ := by decide
+
+/-- float32 -> double -> float32 on bit patterns, for ALL 2^32 patterns (case analysis on the exponent and
+mantissa fields, no enumeration): the bits come back, a signalling NaN with the quiet bit set; both conversions
+stay inside their formats -/
+theorem C02_float32_widen_narrow :
+    (∀ b : Nat, b < 2 ^ 32 → f64ToF32 (f32ToF64 b) = quiet32 b) ∧
+    (∀ b : Nat, b < 2 ^ 32 → (isNaN32 b = false ∨ 2 ^ 22 ≤ f32Man b) → f64ToF32 (f32ToF64 b) = b) ∧
+    (∀ b : Nat, b < 2 ^ 32 → f32ToF64 b < 2 ^ 64) ∧
+    (∀ x : Nat, x < 2 ^ 64 → f64ToF32 x < 2 ^ 32) :=
+  ⟨f64ToF32_f32ToF64, f64ToF32_f32ToF64_exact, f32ToF64_lt, f64ToF32_lt⟩
+
+/-- double -> float32 -> double is the identity on every double that is a float32 value (the image of the
+widening, all classes incl. NaNs): narrowing loses nothing that is representable -/
+theorem C02_float32_representable (x : Nat) (h : ∃ b, b < 2 ^ 32 ∧ x = f32ToF64 b) :
+    f32ToF64 (f64ToF32 x) = x :=
+  f32ToF64_f64ToF32_of_representable x h
+
+example : ∃ b, b < 2 ^ 32 ∧ 0x36A0000000000000 = f32ToF64 b := ⟨1, by decide, by decide⟩
+example : f64ToF32 0x47EFFFFFEFFFFFFF = 0x7F7FFFFF ∧ f64ToF32 0x47EFFFFFF0000000 = 0x7F800000 ∧
+    f64ToF32 0x3FB999999999999A = 0x3DCCCCCD ∧ f64ToF32 0x3690000000000000 = 0 ∧
+    f64ToF32 0x3690000000000001 = 1 ∧ f64ToF32 0x7FF0000000000001 = 0x7FC00000 := by decide
+
+/-- what is proved about the rounding of `attribute_proto.f = x` (double -> float32):
+(1) it is monotone on the non-negative doubles up to +inf (bit-pattern order is value order there) and (2)
+commutes with the sign bit; hence (3) faithful: a double between two adjacent float32 values goes to one of the
+two; (4) in the NORMAL range it is round-to-nearest, ties-to-even, stated on bit patterns: the doubles strictly
+between the normal float32 `b` and its successor are `f32ToF64 b + d`, `0 < d < 2^29`; the successor of the largest
+finite float32 is the pattern of infinity, so this contains the overflow threshold 0x47EFFFFFF0000000.
+MISSING (compared with the real code on every run, exhaustive scope around 8192 float32 values, not proved): that
+the choice between the two neighbours is nearest / ties-to-even also below the least normal float32 (subnormal
+results and underflow to zero; there only (3) is proved). -/
+theorem C02_float32_rounding_partial :
+    (∀ x y : Nat, x ≤ y → y ≤ 2047 * 2 ^ 52 → f64ToF32 x ≤ f64ToF32 y) ∧
+    (∀ x : Nat, x < 2 ^ 63 → f64ToF32 (2 ^ 63 + x) = 2 ^ 31 + f64ToF32 x) ∧
+    (∀ b x : Nat, b + 1 ≤ inf32 → f32ToF64 b ≤ x → x ≤ f32ToF64 (b + 1) → f64ToF32 x = b ∨ f64ToF32 x = b + 1) ∧
+    (∀ b d : Nat, b < inf32 → f32Exp b ≠ 0 → d < 2 ^ 29 →
+      f64ToF32 (f32ToF64 b + d) = if d < 2 ^ 28 ∨ (d = 2 ^ 28 ∧ b % 2 = 0) then b else b + 1) :=
+  ⟨f64ToF32_mono, f64ToF32_neg, f64ToF32_faithful, f64ToF32_nearest_normal⟩
+
+example : (0x3DCCCCCD : Nat) < inf32 ∧ f32Exp 0x3DCCCCCD ≠ 0 ∧ 0x7F7FFFFF + 1 ≤ inf32 ∧
+    f32ToF64 0x7F7FFFFF + 2 ^ 28 = 0x47EFFFFFF0000000 := by decide
+
+/-- UTF-8 as CPython's strict codec, on bytes and code points: (1) bytes -> str -> bytes (the direction of C02):
+whatever decodes, encodes back to the same bytes (decoding accepts shortest forms only); (2) str -> bytes -> str:
+what encodes, decodes back to the same code points; (3) encoding succeeds iff there is no lone surrogate. -/
+theorem C02_utf8_roundtrip :
+    (∀ bs cps : List Nat, utf8Dec bs = some cps → utf8Enc cps = .ok bs) ∧
+    (∀ cps bs : List Nat, cps.all (fun c => decide (c < 0x110000)) = true → utf8Enc cps = .ok bs →
+      utf8Dec bs = some cps) ∧
+    (∀ cps : List Nat, (∃ bs, utf8Enc cps = .ok bs) ↔ cps.all (fun c => !isSurrogate c) = true) :=
+  ⟨utf8Enc_of_dec, utf8Dec_of_enc, utf8Enc_ok_iff⟩
+
+example : utf8Dec [0x68, 0xC3, 0xA9, 0xF0, 0x9F, 0x98, 0x80] = some [0x68, 0xE9, 0x1F600] ∧
+    utf8Dec [0xC0, 0x80] = none ∧ utf8Dec [0xED, 0xA0, 0x80] = none ∧ utf8Dec [0xF4, 0x90, 0x80, 0x80] = none ∧
+    [0x68, 0xE9, 0x1F600].all (fun c => decide (c < 0x110000)) = true := by decide
 
 end IrVerif.Serde
